@@ -409,6 +409,7 @@ namespace c02
         void start()
         {
             Tracked::reset(flav().c_str());
+            Throwing::disarm();
             v = new V;
             m.clear();
             next = 100;
@@ -531,6 +532,11 @@ namespace c02
                         printf("    -> injected fault: construction #%d of kind %d threw\n", c, k);
                     trace += k == Throwing::VALUE ? "!value-ctor-threw" : k == Throwing::COPY ? "!copy-ctor-threw" : "!move-ctor-threw";
                     return true;
+                }
+                catch (...)
+                {
+                    Throwing::disarm(); // a monitor failure passes through: do not leave the fault armed for the next case
+                    throw;
                 }
                 Throwing::disarm();
                 return false;
